@@ -107,7 +107,8 @@ def main():
             'path': 'simkit/',
             'serves_properties': sorted(CLAIMED),
             'kind_free_text': 'deterministic simulator: baton-passing scheduler over real threads with line-level '
-                              'pre-emption, discrete-event virtual clock with stalls, fork-per-run worker pool, '
+                              'pre-emption (uniform random choice, PCT priority schedules, thread starvation), '
+                              'discrete-event virtual clock with stalls, fork-per-run worker pool, '
                               'decision-log replay, ddmin minimiser; world/ holds the simulated link, firmware, radio, '
                               'bootloader, file system and socket models',
         }],
